@@ -20,6 +20,7 @@ type Engine struct {
 	modsets   map[*ssa.Function]ModSet
 	modBusy   map[*ssa.Function]bool
 	wrap64    map[*ssa.Function]bool
+	atomic    map[*ssa.Function]bool
 	stale     []string
 	axioms    []string
 	axiomDefs []*Axiom
